@@ -144,7 +144,7 @@ let fam_sparse () =
       out_res (fun b -> out (if b then "1" else "0")) (sp_is_zero o.o_csc s (nat_of_int r) (nat_of_int c)))
       (range (n + 1))) (range (n + 1));
     sep "D";
-    List.iter (fun b -> out_res (fun l -> List.iter outn l; out ";") (sp_diag o s nbn (nat_of_int b))) (range nb);
+    List.iter (fun b -> out_res (fun l -> List.iter outn l; out ";") (sp_diag o s nbn (nat_of_int b))) (range (nb + 1));
     sep "I1"; out_res outn (sp_index1 o s nbn O O);
     sep "AD";
     let data = zl (List.init size (fun k -> k + 1)) in
